@@ -38,7 +38,7 @@ func genC02(rt *rapid.T) CaseC02 {
 	}
 	m := rapid.IntRange(2, max).Draw(rt, "nacts")
 	for i := 0; i < m; i++ {
-		a := ActC02{Kind: rapid.SampledFrom([]string{"write", "write", "write", "cut", "heal", "deliver", "deliver", "deliver", "drop", "dup", "restart", "gate", "release", "release", "dropexchange", "dropexchange"}).Draw(rt, "kind"),
+		a := ActC02{Kind: rapid.SampledFrom([]string{"write", "write", "write", "cut", "heal", "deliver", "deliver", "deliver", "drop", "dup", "restart", "gate", "release", "release", "dropexchange", "dropexchange", "dropall", "deliverall"}).Draw(rt, "kind"),
 			I: rapid.IntRange(0, c.N-1).Draw(rt, "i")}
 		switch a.Kind {
 		case "cut", "heal":
@@ -59,6 +59,20 @@ func genC02(rt *rapid.T) CaseC02 {
 			ActC02{Kind: "cut", I: i, J: j}, ActC02{Kind: "write", I: i, K: 1}, ActC02{Kind: "heal", I: i, J: j},
 			ActC02{Kind: "dropexchange", I: i, K: 0}, ActC02{Kind: "dropexchange", I: i, K: 0}, ActC02{Kind: "dropexchange", I: i, K: 0},
 			ActC02{Kind: "cut", I: i, J: j})
+	}
+	if rapid.IntRange(0, 3).Draw(rt, "tail2") == 0 {
+		// writes whose announcements are all lost, then a write made above another replica's delivered write (an
+		// entry naming several concurrent heads, one of which the others already know), then traffic the other way
+		i := rapid.IntRange(0, c.N-1).Draw(rt, "t2i")
+		j := (i + 1 + rapid.IntRange(0, c.N-2).Draw(rt, "t2j")) % c.N
+		n := rapid.IntRange(1, 2).Draw(rt, "t2n")
+		for k := 0; k < n; k++ {
+			c.Acts = append(c.Acts, ActC02{Kind: "write", I: i, K: k}, ActC02{Kind: "dropall"})
+		}
+		c.Acts = append(c.Acts,
+			ActC02{Kind: "write", I: j, K: 2}, ActC02{Kind: "deliverall"},
+			ActC02{Kind: "write", I: i, K: 3}, ActC02{Kind: "deliverall"},
+			ActC02{Kind: "write", I: j, K: 1}, ActC02{Kind: "deliverall"})
 	}
 	return c
 }
@@ -87,6 +101,17 @@ func execC02(c CaseC02) *Outcome {
 	settleStep := func() {
 		// let what the previous step set in motion come to a standstill, so that the set of held messages the
 		// next step picks from is a function of the history rather than of goroutine timing
+		// (first of all every local write has been announced: the announcement is published by a listener
+		// some time after the write call returns)
+		world.WaitFor(func() bool {
+			for _, st := range cl.Open() {
+				r := st.Replicator()
+				if world.HookCount("store.write.handled", r) < world.HookCount("store.addop.persisted", r) {
+					return false
+				}
+			}
+			return true
+		}, 500*time.Millisecond)
 		w.WaitQuiescent(cl.Open(), &world.QuiesceOpts{AllowHeld: true, StableOnly: true}, 500*time.Millisecond)
 	}
 	for ai, a := range c.Acts {
@@ -143,6 +168,12 @@ func execC02(c CaseC02) *Outcome {
 			if m := w.TakeHeld(a.K); m != nil {
 				faulty = true
 			}
+		case "dropall":
+			for m := w.TakeHeld(0); m != nil; m = w.TakeHeld(0) {
+				faulty = true
+			}
+		case "deliverall":
+			w.DeliverAllHeld()
 		case "dropexchange":
 			// lose a head exchange (direct-channel payload), counted from the most recent one
 			if m := w.TakeHeldKind("direct", a.K%3); m != nil {
